@@ -19,7 +19,7 @@ import html
 import re
 
 LEVEL = "exploration"
-RULE = ("a case = one analyzer configuration (65 shipped analyzers / tokenizer|filter compositions, incl. per-language "
+RULE = ("a case = one analyzer configuration (67 shipped analyzers / tokenizer|filter compositions, incl. per-language "
         "analyzers) x one field type that analyses text (TEXT with/without positions and chars, KEYWORD, ID, IDLIST, "
         "NGRAM, NGRAMWORDS) x 4..6 generated texts (multi-script unicode, punctuation, numbers, URLs, e-mail, very "
         "long/short tokens, stop words of several languages, CamelCase and intra-word punctuation, sentences) indexed "
@@ -162,6 +162,9 @@ def catalogue():
     add("ngramwords23", lambda: A.NgramWordAnalyzer(2, 3), pos="multi")
     add("ngramwords-start", lambda: A.NgramWordAnalyzer(2, 4, at="start"), pos="multi")
     add("ngramwords-end", lambda: A.NgramWordAnalyzer(2, 4, at="end"), pos="multi")
+    add("ngram-after-folding", lambda: A.RegexTokenizer() | A.CharsetFilter(charset_table_to_dict(default_charset))
+        | A.NgramFilter(2, 3), pos="multi")
+    add("ngram-after-stemming", lambda: A.StemmingAnalyzer() | A.NgramFilter(3), pos="multi")
     add("intraword", lambda: A.RegexTokenizer(r"\S+") | A.IntraWordFilter() | A.LowercaseFilter(), pos="multi")
     add("intraword-merge", lambda: A.RegexTokenizer(r"\S+") | A.IntraWordFilter(mergewords=True, mergenums=True)
         | A.LowercaseFilter(), pos="multi")
@@ -510,42 +513,11 @@ def check_offsets(ctx, wit, ana, text, itoks):
             continue
         ctx.count("e.exact_by_reanalysis")
         if not any(tx == t.text and sc == 0 and ec == len(piece) for tx, sc, ec in again):
-            if _ngram_after_lowercase(wit["analyzer"]) and _shifted_by_lowercase(text, t):
-                ctx.fail("e.offsets", "known:ngram-offsets-after-length-changing-lowercase",
-                         dict(wit, token=t.tup(), slice=short(piece, 80)),
-                         "offsets are indexes into the lower-cased word, whose length differs from the source word")
-                return
             ctx.fail("e.offsets", "slice-does-not-reproduce-token:%s" % wit["analyzer"],
                      dict(wit, token=t.tup(), slice=short(piece, 80), reanalysed=[a for a in again[:8]]),
                      "text[%d:%d]=%r re-analysed gives %r, not the token %r spanning the slice" % (
                          t.sc, t.ec, short(piece, 60), again[:6], short(t.text, 60)))
             return
-
-
-WORD = re.compile(r"\w+(\.?\w+)*")
-
-
-def _ngram_after_lowercase(aname):
-    return aname.startswith("ngramwords") or aname.startswith("field:NGRAMWORDS")
-
-
-def _has_length_changing_lower(text):
-    return any(len(c.lower()) != 1 for c in text)
-
-
-def _shifted_by_lowercase(text, t):
-    """Second oracle for the listed finding: NgramFilter runs after LowercaseFilter and computes gram offsets as
-    indexes into the lower-cased word; when lower() changes the length of the word (U+0130 ...) they no longer index
-    the source. True when the token is exactly what that mechanism produces."""
-    for m in WORD.finditer(text):
-        ws, we = m.start(), m.end()
-        word = m.group(0)
-        low = word.lower()
-        if len(low) != len(word) and ws <= t.sc and t.sc - ws <= len(low):
-            a = t.sc - ws
-            if low[a:a + len(t.text)] == t.text:
-                return True
-    return False
 
 
 # ---- (f) highlights ------------------------------------------------------
@@ -657,10 +629,6 @@ def check_highlights(ctx, rng, s, wit, field, ana, text, itoks, distinct, did, k
                             break
                         reach = max(reach, ec)
                     ok = ok and reach >= b
-                if not ok and _ngram_after_lowercase(wit["analyzer"]) and _has_length_changing_lower(text):
-                    ctx.fail("e.offsets", "known:ngram-offsets-after-length-changing-lowercase",
-                             dict(hw, span=(a, b), marked=short(text[a:b], 80)), "seen through a highlight")
-                    break
                 if not ok:
                     ctx.fail("f.highlight", "marked-span-not-a-matched-term:%s%s" % (frname, "(stored-chars)" if pin else ""),
                              dict(hw, span=(a, b), marked=short(text[a:b], 80), matched_term_ranges=ranges[:12],
@@ -731,10 +699,6 @@ def check_lowlevel_highlight(ctx, rng, wit, ana, text, qtoks):
             index = m.endchar
             ctx.count("f.lowlevel_spans")
             if not span_ok(m.startchar, m.endchar, ranges):
-                if _ngram_after_lowercase(wit["analyzer"]) and _has_length_changing_lower(text):
-                    ctx.fail("e.offsets", "known:ngram-offsets-after-length-changing-lowercase", hw,
-                             "seen through highlight.highlight()")
-                    return
                 ctx.fail("f.highlight", "marked-span-not-a-matched-term:lowlevel/%s" % frname,
                          dict(hw, span=(m.startchar, m.endchar), marked=short(text[m.startchar:m.endchar], 80),
                               matched_term_ranges=ranges[:12], output=short(out, 300)))
@@ -798,10 +762,6 @@ def check_strict_phrase(ctx, rng, s, wit, text, itoks, words, did):
             nmarked += 1
             ctx.count("f.strict_phrase_spans")
             if not span_ok(m.startchar, m.endchar, ranges):
-                if _ngram_after_lowercase(wit["analyzer"]) and _has_length_changing_lower(text):
-                    ctx.fail("e.offsets", "known:ngram-offsets-after-length-changing-lowercase", hw,
-                             "seen through a strict-phrase highlight")
-                    return
                 ctx.fail("f.highlight", "strict-phrase-marks-non-phrase-word",
                          dict(hw, span=(m.startchar, m.endchar), marked=short(text[m.startchar:m.endchar], 80),
                               phrase_word_ranges=ranges[:12], output=short(out, 300)))
